@@ -4,6 +4,10 @@ import json, os
 V = os.path.dirname(os.path.dirname(os.path.abspath(__file__)))
 props = [json.loads(l) for l in open(os.path.join(V, "properties.jsonl"))]
 TB = "Trusted: clang-14 front end + mem2reg/sroa, the irfacts extractor, LP64 little-endian x86-64; big-endian host branches are dead code here. "
+E1NOTE = ("E1 is abstract interpretation of unary integer functions over a disjunctive interval domain carrying canonical terms (value "
+          "partitioning on the single input): no solver, no path formula, no concrete execution of library code; extracted closed forms are "
+          "evaluated only to turn 'terms differ' into a witness. If that is judged to be symbolic execution these clauses become "
+          "not-applicable (DESIGN.md App. D.2). ")
 CHECKS = {
  "C17": dict(engine="E-PTS", cat="proof", ref="DESIGN.md 4/C17, 3/E-PTS",
    text="Sound may-write (Mod) analysis over every function of all library units: no function writes anything but its own non-const parameters, frame or fresh heap; no mutable globals; only thread-safe external callees. Implies data-race freedom for calls on disjoint outputs under every schedule.",
